@@ -9,6 +9,10 @@ import (
 	"strings"
 )
 
+// crashSignal unwinds to the enclosing vRunToCrash without running any deferred function of the target program:
+// a process that dies does not run its defers.
+type crashSignal struct{}
+
 type externalFn func(fr *frame, args []value) value
 
 // Key strings are from Function.String().
@@ -106,6 +110,22 @@ func init() {
 		"vSetIdleHook": func(fr *frame, a []value) value {
 			fr.i.x.idleHook = a[0]
 			return nil
+		},
+		"vCrashNow": func(fr *frame, a []value) value {
+			panic(crashSignal{})
+		},
+		"vRunToCrash": func(fr *frame, a []value) (res value) {
+			defer func() {
+				if r := recover(); r != nil {
+					if _, ok := r.(crashSignal); ok {
+						res = true
+						return
+					}
+					panic(r)
+				}
+			}()
+			call(fr.i, fr, 0, a[0], nil)
+			return false
 		},
 		"vIsEngine": func(fr *frame, a []value) value { return true },
 		"vNumSpawned": func(fr *frame, a []value) value {
